@@ -98,4 +98,15 @@ theorem fba_problem_optimum (n : Net) (hp : n.Proper) (x : V → Rat) (h : n.fba
     ∀ v, n.Feasible v → if n.dirMax then n.objVal v ≤ n.objVal (netOf x) else n.objVal (netOf x) ≤ n.objVal v :=
   fba_optimum n hp x h
 
+open AuxM in
+/-- **reduced costs are `c − Sᵀy`**: under any row multipliers `y` (the shadow prices cobrapy reports, by metabolite), the reduced cost of the forward
+variable of reaction `i` in the solver problem — which is what cobrapy reports as the reaction's reduced cost — equals the objective coefficient
+minus the stoichiometric column times `y`; the reverse variable's is its negative (reporting `dual(forward) − dual(reverse)` gave twice the value) -/
+theorem reduced_cost_is_c_minus_STy (n : Net) (y : String → Rat) (i : Nat) (hi : i ∈ n.idx) :
+    n.fba.rc y (.fwd i) = n.objCoef i - (n.mets.map (fun m => y m * coefOf (n.rx i).st m)).sum ∧
+    n.fba.rc y (.rev i) = -(n.objCoef i - (n.mets.map (fun m => y m * coefOf (n.rx i).st m)).sum) := fba_reduced_cost n y i hi
+
+example : AuxM.demoNet.fba.rc (fun _ => 2) (.fwd 1) = 3 := by
+  rw [(reduced_cost_is_c_minus_STy AuxM.demoNet (fun _ => 2) 1 (by decide)).1]; decide +kernel
+
 end C04
